@@ -298,3 +298,19 @@ Proof.
     apply in_seq in Hk'. apply in_seq. cbn in *. auto with zarith. }
   vm_compute. repeat split; auto.
 Qed.
+
+(* ---- arbitrary values (what a Pedersen resharing feeds to the Recover
+   functions: values of UNRELATED polynomials, so the choice of the t entries
+   matters): for a slice whose non-nil entries carry pairwise distinct indices,
+   every reordering of the slice and every placement of nil pointers selects the
+   same entries and gives the same four results - whatever the values are. *)
+From Kyber Require Import Share.ShamirPerm.
+Theorem C07_recover_order_independent_on_arbitrary_values :
+  forall q (t : nat) (sh1 sh2 : list (entry q)),
+    NoDup (map fst (nonnil sh1)) -> Permutation.Permutation (nonnil sh1) (nonnil sh2) ->
+    select t sh1 = select t sh2 /\
+    recover_secret t sh1 = recover_secret t sh2 /\
+    recover_commit t sh1 = recover_commit t sh2 /\
+    recover_pripoly t sh1 = recover_pripoly t sh2.
+Proof. exact select_perm_invariant. Qed.
+Print Assumptions C07_recover_order_independent_on_arbitrary_values.
